@@ -426,10 +426,29 @@ func c12Builder(env *fw.Env, idx int, pairs bool) fw.Result {
 				return viol("add-panic-on-fault", "faults %v: an Add call panicked: %s", fc.faults, a.Panic)
 			}
 		}
+		// what a fault does depends on the kind of callback that is really
+		// the f.At-th of this run (an earlier fault of a pair can shift the
+		// sequence): a fetch ignores the diagnostic modes, a registry call
+		// fails for every mode, only a finder can raise a mere warning
+		kindAt := func(ord int) string {
+			if ord-1 < len(be.kinds) {
+				return be.kinds[ord-1]
+			}
+			return ""
+		}
+		failing := func(f fault) bool {
+			switch kindAt(f.At) {
+			case "fetch":
+				return f.Mode == "error" || f.Mode == "partial-then-error"
+			case "find":
+				return f.Mode != "warning-diag"
+			}
+			return true
+		}
 		warningOnly := true
 		for _, f := range fc.faults {
 			for _, reached := range be.faulted {
-				if reached == f.At && f.Mode != "warning-diag" {
+				if reached == f.At && failing(f) {
 					warningOnly = false
 				}
 			}
@@ -448,6 +467,11 @@ func c12Builder(env *fw.Env, idx int, pairs bool) fw.Result {
 				}
 			}
 			if !reached {
+				continue
+			}
+			// an earlier fault of a pair can shift which callback is the
+			// f.At-th one of this run: only a finder call carries diagnostics
+			if f.At-1 < len(be.kinds) && be.kinds[f.At-1] != "find" {
 				continue
 			}
 			sev, sum, det, extra := sourcebundle.DiagError, fmt.Sprintf("injected finder error #%d", f.At), "detail of injected error", interface{}(f.At)
@@ -555,7 +579,7 @@ func c12Builder(env *fw.Env, idx int, pairs bool) fw.Result {
 		for k, ord := range be.faulted {
 			isWarn := false
 			for _, f := range fc.faults {
-				if f.At == ord && f.Mode == "warning-diag" {
+				if f.At == ord && !failing(f) {
 					isWarn = true
 				}
 			}
@@ -564,7 +588,7 @@ func c12Builder(env *fw.Env, idx int, pairs bool) fw.Result {
 			}
 			ai := be.faultedAdd[k]
 			if ai >= len(br.Adds) || !br.Adds[ai].Diags.HasErrors() {
-				return viol("failure-not-reported", "fault at callback %d (%s): the Add call that ran it returned no error diagnostic (%v)", ord, kinds[ord-1], describeDiags(br.Adds[min(ai, len(br.Adds)-1)].Diags))
+				return viol("failure-not-reported", "fault at callback %d (%s): the Add call that ran it returned no error diagnostic (%v)", ord, kindAt(ord), describeDiags(br.Adds[min(ai, len(br.Adds)-1)].Diags))
 			}
 		}
 		nErr := 0
@@ -578,7 +602,7 @@ func c12Builder(env *fw.Env, idx int, pairs bool) fw.Result {
 		nFaultErr := 0
 		for _, ord := range be.faulted {
 			for _, f := range fc.faults {
-				if f.At == ord && f.Mode != "warning-diag" {
+				if f.At == ord && failing(f) {
 					nFaultErr++
 				}
 			}
